@@ -193,7 +193,8 @@ def minimise(eng, case, bucket, budget):
 
 
 def _write_replay(here, pid, bucket, case, detail, seed, tier, sub="found"):
-    d = os.path.join(here, "replays", pid, sub)
+    alt = os.environ.get("VERIF_EVIDENCE_DIR")  # mutation runs write outside /verif
+    d = os.path.join(alt, "replays", pid, sub) if alt else os.path.join(here, "replays", pid, sub)
     os.makedirs(d, exist_ok=True)
     path = os.path.join(d, util.h64(bucket) + ".json")
     with open(path, "w") as f:
@@ -405,8 +406,9 @@ def main(argv, here, repo):
     if evaluations < 1 or len(nontrivial) < 2 or not samples:
         print(f"HARNESS-ERROR: vacuous run (evaluations={evaluations}, nontrivial={len(nontrivial)})")
         return 2
-    os.makedirs(os.path.join(here, "evidence"), exist_ok=True)
-    with open(os.path.join(here, "evidence", f"{pid}.json"), "w") as f:
+    evdir = os.environ.get("VERIF_EVIDENCE_DIR") or os.path.join(here, "evidence")
+    os.makedirs(evdir, exist_ok=True)
+    with open(os.path.join(evdir, f"{pid}.json"), "w") as f:
         json.dump(ev, f, indent=1, sort_keys=True)
         f.write("\n")
 
